@@ -216,15 +216,10 @@ theorem c03_wav_section_identity (cfg : RichCfg) (ctx : EncCtx) (ids : List Nat)
       if ids.getD i 0 ≠ 0 then some (⟨strById ctx.texts (ids.getD i 0), i⟩ : RWav) else none) = .ok ids :=
   wav_rich_roundtrip cfg ctx ids hlen hstr
 
-/-- the sound entries the rich layer reads from a WAV id table -/
-def wavEntries (texts : List Bytes) (ids : List Nat) : List RWav :=
-  (List.range ids.length).filterMap fun i =>
-    if ids.getD i 0 ≠ 0 then some (⟨strById texts (ids.getD i 0), i⟩ : RWav) else none
-
 /-- **saving the sound table is idempotent for EVERY input table** on which the first save succeeds -/
 theorem c03_wav_section_idempotent (cfg : RichCfg) (ctx : EncCtx) (ids out : List Nat)
-    (h : encodeWav cfg ctx (wavEntries ctx.texts ids) = .ok out) :
-    encodeWav cfg ctx (wavEntries ctx.texts out) = .ok out := by
+    (h : encodeWav cfg ctx (decodeWavIds ctx.texts ids) = .ok out) :
+    encodeWav cfg ctx (decodeWavIds ctx.texts out) = .ok out := by
   have hlen : out.length = cfg.wavSlots := by
     have := mapR_length (by unfold encodeWav at h; exact h)
     simpa using this
@@ -239,8 +234,8 @@ theorem c03_wav_section_idempotent (cfg : RichCfg) (ctx : EncCtx) (ids out : Lis
   · have h0 : out[i] = 0 := by simpa using this.symm
     rw [h0]; simp [strById, idByStr]
   · rename_i w hf
-    have hm : w ∈ wavEntries ctx.texts ids := List.mem_reverse.mp (List.mem_of_find?_eq_some hf)
-    unfold wavEntries at hm
+    have hm : w ∈ decodeWavIds ctx.texts ids := List.mem_reverse.mp (List.mem_of_find?_eq_some hf)
+    unfold decodeWavIds at hm
     obtain ⟨j, _, hj⟩ := filterMap_range_mem _ _ w hm
     split at hj
     · cases hj
